@@ -209,3 +209,24 @@ Print Assumptions C13_reachable_step.
 Theorem C13_state_tags_distinct : C13_STARTED <> C13_STOPPED.
 Proof. exact state_tags_distinct. Qed.
 Print Assumptions C13_state_tags_distinct.
+
+(* history-wise: _started_at is the last clock reading taken by the last (re)start of the history
+   (ops1, then the (re)start o, then ops2 without any (re)start) — the "last (re)start" of the property *)
+Theorem C13_started_at_is_last_restart : forall clk ops1 o ops2 w0 t0,
+  let c1 := final clk ops1 w0 t0 in
+  effective_restart o (fst c1) = true ->
+  let c2 := fst (step clk o (fst c1) (snd c1)) in
+  restarts_in clk ops2 (fst c2) (snd c2) = false ->
+  w_started (fst (final clk (ops1 ++ o :: ops2) w0 t0)) = Some (clk (snd c2 - 1)%nat) /\ (snd c1 < snd c2)%nat.
+Proof. exact started_at_is_last_restart. Qed.
+Print Assumptions C13_started_at_is_last_restart.
+
+(* history-wise: _stopped_at is the clock reading taken by the last stop of the history — the "stop instant" *)
+Theorem C13_stopped_at_is_last_stop : forall clk ops1 o ops2 w0 t0,
+  let c1 := final clk ops1 w0 t0 in
+  effective_stop o (fst c1) = true ->
+  let c2 := fst (step clk o (fst c1) (snd c1)) in
+  stops_in clk ops2 (fst c2) (snd c2) = false ->
+  w_stopped (fst (final clk (ops1 ++ o :: ops2) w0 t0)) = Some (clk (snd c1)).
+Proof. exact stopped_at_is_last_stop. Qed.
+Print Assumptions C13_stopped_at_is_last_stop.
